@@ -147,6 +147,12 @@ def recvAllowed (b : Bus) (sender addressed proposed : Option ConnId) (v : MsgVi
   | some rules => canReceive b.limits.maxFdsDefault rules v requested (decide (addressed ≠ proposed) && v.dest.isSome) (b.peerInfo sender)
   | none => true
 
+/-- "destination has a full message queue": the proposed recipient's outgoing queue is over
+    max_outgoing_bytes (it is not reading its socket) -/
+def queueFull (b : Bus) : Option ConnId → Bool
+  | some p => b.full.contains p
+  | none => false
+
 /-- the decision proper (no state change): `none` = allowed -/
 def policyVerdict (b : Bus) (sender addressed proposed : Option ConnId) (m : Msg) (requested : Bool) : Option Err :=
   if senderInactive b sender then
@@ -154,6 +160,7 @@ def policyVerdict (b : Bus) (sender addressed proposed : Option ConnId) (m : Msg
     if proposed.isNone && isHello m then none else some .accessDenied
   else if !sendAllowed b sender proposed (msgView m) requested then some .accessDenied
   else if !recvAllowed b sender addressed proposed (msgView m) requested then some .accessDenied
+  else if queueFull b proposed then some .limitsExceeded
   else none
 
 /-- `bus_context_check_security_policy`, the gate every delivery passes; `sender = none` is the bus
@@ -591,10 +598,12 @@ def runMethod (t : Tx) (c : ConnId) (m : Msg) (which : Method) : Tx × Option Er
       | .error e => (t, some e)
       | .ok rules => (beMonitor (reply t c m [] []) c rules, none)
   | .opaqueM =>
-    -- a reply whose body is not modelled: monitors are shown it on the strength of its header
+    -- a reply whose body is not modelled: monitors are shown it, and the gate judges it, on the strength of its header
     let t := (captureTargets t.bus none (some c) (stampDriver t.bus c (mkReturn m [] []))).foldl
       (fun (t : Tx) r => { t with mon := t.mon ++ [.opaque r m.serial] }) t
-    (t.emit (.opaque c m.serial), none)
+    match checkPolicy t.bus none (some c) (some c) (stampDriver t.bus c (mkReturn m [] [])) with
+    | (p, some e) => (captureError (t.setPending p) (some c) (stampDriver t.bus c (mkReturn m [] [])) e, none)
+    | (p, none) => ((t.setPending p).emit (.opaque c m.serial), none)
 
 def bodySig (m : Msg) : Bytes := printList m.bodyTypes
 
@@ -621,6 +630,7 @@ inductive Ev
   | invalid (c : ConnId)            -- bytes that do not form a valid message: the loader disconnects
   | close (c : ConnId)
   | timeout                          -- the configured reply timeout has elapsed for every pending reply
+  | stall (c : ConnId) (on : Bool)   -- c stops reading and its queue fills up / c has caught up again
   deriving Inhabited
 
 def PEER_IFACE : Bytes := ([0x6f,0x72,0x67,0x2e,0x66,0x72,0x65,0x65,0x64,0x65,0x73,0x6b,0x74,0x6f,0x70,0x2e,0x44,0x42,0x75,0x73,0x2e,0x50,0x65,0x65,0x72] : Bytes)
@@ -725,6 +735,7 @@ def step (tbl : List IfaceRow) (b : Bus) : Ev → Tx
   | .invalid c => if (b.conn? c).isNone then { bus := b } else dropConn b c
   | .close c => disconnect b c
   | .timeout => expireAll b
+  | .stall c on => { bus := { b with full := if on then c :: b.full.filter (· != c) else b.full.filter (· != c) } }
 
 def run (tbl : List IfaceRow) (b : Bus) (evs : List Ev) : Bus × List (List Out) :=
   evs.foldl (fun (acc : Bus × List (List Out)) ev =>
